@@ -210,6 +210,9 @@ var lexPieces = []string{
 	"$p", "$", "$\"q\"", "$1", "+", "-", "*", "/", "%", "&", "|", "^", "=", "!=", "<>", "=~", "!~", "<", "<=", ">", ">=", "!", "(", ")", ",", ";", ":", "::", ".",
 	"..", "-- line comment", "--", "/* block */", "/* open", "/**/", "/***/", "/* a * / b */", "/****/", "/*** x ***/", "/* x **/", "/*****/", " ", "  ", "\t", "\n", "\r\n", "\r", "\n\n", " \n ",
 	"é", "日本", "\xff", "\xc3", "😀", "#", "@", "~", "`", "[", "]", "{", "}", "?",
+	// runes a text layer might take for white space or drop: vertical tab, form feed, NEL, no-break space, em space,
+	// ideographic space, line separator, byte order mark, zero width space
+	"\v", "\f", "\u0085", "\u00a0", "\u2003", "\u3000", "\u2028", "\ufeff", "\u200b", "1s500µ", "2ms250µ",
 }
 
 func lexRandom(o *out, r *rng, n int, direct bool) {
@@ -277,6 +280,37 @@ func c05Ring(o *out, text string, r *rng) {
 	}
 }
 
+// positions outside Scan: the REGEX token of ScanRegex, and parse errors that carry no token at all
+func c05RegexAndErrorPositions(o *out) {
+	for _, prefix := range []string{"", "x ", "a =~ ", "a =~\n", "  ", "a\r\n=~ ", "f(", "'s' "} {
+		for _, re := range []string{"/ab c/", "/a\\/b/", "/open", "/a\nb/"} {
+			text := prefix + re
+			s := influxql.NewScanner(strings.NewReader(text))
+			recs, _, _ := scanAll(prefix)
+			for i := 0; i+1 < len(recs); i++ { // the tokens of the prefix, without its EOF
+				s.Scan()
+			}
+			o.count("regex-position")
+			o.checked()
+			tok, pos, _ := s.ScanRegex()
+			want := linecol(foldCR([]rune(text)), len(foldCR([]rune(prefix))))
+			if pos != want {
+				o.fail("C05-regex-pos", fmt.Sprintf("ScanRegex behind %q: the %s token starts at line %d char %d but reports line %d char %d", prefix, tok, want.Line, want.Char, pos.Line, pos.Char),
+					map[string]interface{}{"op": "regex_pos", "text": text})
+			}
+		}
+	}
+	for _, text := range []string{"SELECT v FROM a.b.c.d", "  SELECT v\nFROM a.b.c.d", "DELETE FROM foo..myseries", "DROP SERIES FROM \"foo\".myseries", "SELECT v FROM m;\nDELETE FROM foo..myseries"} {
+		o.count("error-position")
+		o.checked()
+		_, err := influxql.ParseQuery(text)
+		pe, ok := err.(*influxql.ParseError)
+		if ok && pe.Message != "" && pe.Pos == (influxql.Pos{}) {
+			o.fail("C05-error-without-position", fmt.Sprintf("ParseQuery(%q): %q - the error carries no position and prints line 1, char 1", text, pe.Error()), map[string]interface{}{"op": "error_pos", "text": text})
+		}
+	}
+}
+
 func propC05(o *out, r *rng, thorough bool) {
 	maxLen := 3
 	n := 6000
@@ -288,9 +322,10 @@ func propC05(o *out, r *rng, thorough bool) {
 	o.extra["exhaustive_text_length"] = maxLen
 	o.extra["alphabet"] = len(lexAlphabet)
 	lexRandom(o, r, n, true)
-	for _, w := range []string{"x 'a'", "x", "a = 'b'", "\"x\"", "x\n", "f /* c"} {
+	for _, w := range []string{"x 'a'", "x", "a = 'b'", "\"x\"", "x\n", "f /* c", "\ufeffSELECT a", "\ufeff x", "\ufeff", "\ufeff\ufeffa", "a\ufeffb", "\ufeff'a'", "\u00a0a", "a\vb", "a\u0085b", "a\u3000b"} {
 		lexOne(o, w, "witness", true)
 	}
+	c05RegexAndErrorPositions(o)
 	// walks over the token ring, on statements and on random token soups; every depth of pushback up to three
 	walks := 400
 	if thorough {
